@@ -1407,6 +1407,7 @@ class SVG:
         # https://github.com/googlefonts/picosvg/issues/269 remove empty subpaths *after* rounding
         self.remove_empty_subpaths(inplace=True)
         self.remove_unpainted_shapes(inplace=True)
+        self._tidy_after_pruning(ndigits)
 
         violations = self.checkpicosvg(
             allow_text=allow_text, drop_unsupported=drop_unsupported
@@ -1415,6 +1416,25 @@ class SVG:
             raise ValueError("Unable to convert to picosvg: " + ",".join(violations))
 
         return self
+
+    def _tidy_after_pruning(self, ndigits):
+        """Dropping invisible shapes can leave groups that no longer qualify to be
+        kept (fewer than two children, or opacity 0 or 1 once an outer opacity was
+        pushed onto them) and gradients that nobody references any more."""
+        while True:
+            self._update_etree()
+            changed = False
+            for context in reversed(list(self.depth_first(resolve_clip_paths=False))):
+                if _is_group(context.element):
+                    changed |= _try_remove_group(context.element)
+            self.elements = None
+            if not changed:
+                break
+            # opacity was pushed onto the former children
+            self.round_floats(ndigits, inplace=True)
+            self.remove_unpainted_shapes(inplace=True)
+        self._remove_orphaned_gradients()
+        self.elements = None
 
     @staticmethod
     def _swap_elements(swaps: Iterable[Tuple[etree.Element, Sequence[etree.Element]]]):
